@@ -1077,6 +1077,16 @@ PATCH_SIG = {
 }
 
 
+def open_known_sigs():
+    """signatures of the findings recorded as open in known/C04.json"""
+    try:
+        from core import lean
+        with open(os.path.join(lean.VERIF, "known", "C04.json"), encoding="utf-8") as f:
+            return {k.get("sig") for k in json.load(f).get("findings", []) if k.get("status", "open") == "open"}
+    except Exception:
+        return set()
+
+
 def monitor(case, tmp):
     """(B) on the real code. -> (raw failures [(what, detail)], tags, info)"""
     tags = []
@@ -1385,7 +1395,44 @@ class C04(Property):
         return self.generate(rng, tier)
 
     def corpus(self):
-        return []
+        cs = [{"witness": "shuffle_abandon_counterexample"}]
+        lin = {"kind": "linear", "n": 5, "n_actions": 3, "n_ctx": 2, "n_act": 0, "n_coeff": 2, "rf": ["a", "xa"], "seed": 3}
+        lam = {"kind": "lambda", "n": 51, "ctxs": [[1, 2], [3, 4], [0.5, 7]], "acts": [["x", "y", "z"]], "rwds": [[1, 0, 0.5], [0, 1, 0.25]], "seed": None}
+        xy = {"kind": "sup_xy", "X": [[1, 2], [3, 4], [5, 6], [7, 8]], "Y": ["a", "b", "a", "c"], "label_type": None}
+        rows = {"kind": "sup_rows", "via": "list", "rows": [[1, 2, "a"], [3, 4, "b"], [5, 6, "a"]], "label_col": 2, "label_type": "c", "take": None}
+        csv = {"kind": "sup_file", "fmt": "csv", "via": "file", "lines": ["f0,f1,lbl", "1,2,a", "3,4,b", "5,6,a"], "has_header": True, "label_col": "lbl", "label_type": "c", "take": None}
+        logged = {"m": "logged", "learner": {"kind": "random", "seed": 1}, "a": [1.23]}
+        full, par = {"op": "full", "on": 0}, {"op": "params", "on": 0}
+
+        def part(k, on=0):
+            return {"op": "partial", "on": on, "k": k}
+        # the logged Shuffle: abandoned read / a downstream take that never exhausts it / cache behind it
+        for chain in ([logged, {"m": "shuffle", "a": [4]}], [logged, {"m": "shuffle", "a": [4]}, {"m": "take", "a": [3, False]}],
+                      [logged, {"m": "shuffle", "a": [4]}, {"m": "cache"}], [logged, {"m": "shuffle", "a": [4]}, {"m": "sort", "a": [0]}],
+                      [{"m": "shuffle", "a": [4]}]):
+            for hist in ([full, part(2), full, par], [full, full, par], [part(0), part(1), full], [full, {"op": "materialize", "on": 0}, {"op": "full", "on": 1}, full]):
+                cs.append({"src": lin, "chain": chain, "hist": hist})
+        # Cache: slice boundaries, saved iterator continuing across reads, nested caches, pickling a half-filled cache
+        for n in (24, 25, 26, 50, 51):
+            for k in (1, 24, 25, 26, 50):
+                cs.append({"src": dict(lam, n=n), "chain": [{"m": "cache"}], "hist": [part(k), part(3), full, part(k), full, par]})
+        cs.append({"src": lam, "chain": [{"m": "cache"}, {"m": "sparse", "a": [True, False]}, {"m": "cache"}], "hist": [part(3), part(30), full, full]})
+        cs.append({"src": lam, "chain": [{"m": "filter", "f": {"cls": "Cache", "a": [1]}}], "hist": [part(2), part(1), full, full]})
+        cs.append({"src": lam, "chain": [{"m": "filter", "f": {"cls": "Cache", "a": [None]}}], "hist": [part(2), full, full]})
+        cs.append({"src": lam, "chain": [{"m": "cache"}], "hist": [part(2), {"op": "pickle", "on": 0}, {"op": "full", "on": 1}, full]})
+        cs.append({"src": lam, "chain": [], "hist": [{"op": "cache", "on": 0}, part(2, 1), {"op": "cache", "on": 1}, part(30, 2), {"op": "full", "on": 2}, {"op": "materialize", "on": 2}, {"op": "full", "on": 3}]})
+        cs.append({"src": lam, "chain": [{"m": "chunk", "a": [True]}], "hist": [part(26), {"op": "save", "on": 0}, {"op": "full", "on": 1}, full, {"op": "params", "on": 1}]})
+        # sources that know their params only once read; one-shot zip; lazy rows
+        for src in (xy, rows, csv):
+            cs.append({"src": src, "chain": [], "hist": [par, full, par, full, {"op": "save", "on": 0}, {"op": "params", "on": 1}, {"op": "full", "on": 1}]})
+            cs.append({"src": src, "chain": [{"m": "cache"}], "hist": [full, {"op": "pickle", "on": 0}, {"op": "full", "on": 1}, {"op": "params", "on": 1}]})
+            cs.append({"src": src, "chain": [{"m": "scale", "a": ["min", "minmax", "context", None]}], "hist": [part(1), full, full, par]})
+        # empty environments (EmptyCheck), densify lookup
+        cs.append({"src": dict(lin, n=0), "chain": [], "hist": [full, full, par, {"op": "materialize", "on": 0}, {"op": "full", "on": 1}]})
+        cs.append({"src": lin, "chain": [{"m": "take", "a": [0, False]}], "hist": [full, part(1), full]})
+        cs.append({"src": lam, "chain": [{"m": "sparse", "a": [True, False]}, {"m": "dense", "a": [6, "lookup"], "k": {"context": True, "action": False}}],
+                   "hist": [part(1), full, part(2), full, {"op": "materialize", "on": 0}, {"op": "full", "on": 1}]})
+        return cs
 
     # ---- evaluation
     def evaluate(self, case, driver):
@@ -1397,7 +1444,28 @@ class C04(Property):
             shutil.rmtree(tmp, ignore_errors=True)
             quiet()
 
+    def witness(self, case):
+        """the concrete history of `shuffle_abandon_counterexample` (Props/C04.lean) replayed on the real code"""
+        from coba.environments import Environments
+        from coba.learners import RandomLearner
+        quiet()
+        fails = []
+        base = full_read(Environments.from_linear_synthetic(5, 3, 2, 0, seed=3).logged(RandomLearner())[0])
+        env = Environments.from_linear_synthetic(5, 3, 2, 0, seed=3).logged(RandomLearner()).shuffle(4)[0]
+        r1 = full_read(env)
+        r2, _ = partial_read(env, 2)
+        r3 = full_read(env)
+        seed = env.params.get("shuffle_seed")
+        asis = (r1 == [base[i] for i in [2, 1, 3, 0, 4]] and r2 == r1[:2] and r3 == [base[i] for i in [4, 0, 3, 2, 1]] and seed == 4 * 3.21)
+        fixed = (r1 == [base[i] for i in [2, 1, 3, 0, 4]] and r2 == r1[:2] and r3 == r1 and seed == 4)
+        if not (asis or fixed):
+            fails.append(F("A", "the witness of shuffle_abandon_counterexample behaves neither as the as-is model nor as the repaired model: orders %s / %s, seed %r"
+                           % ([base.index(x) for x in r1], [base.index(x) for x in r3], seed), "A:witness-shuffle"))
+        return {"fails": fails, "nontrivial": True, "tags": ["witness:" + ("asis" if asis else "fixed" if fixed else "neither")], "impl": {"seed": seed}}
+
     def _evaluate(self, case, driver, tmp):
+        if "witness" in case:
+            return self.witness(case)
         fails = []
         tags = ["src:" + case["src"]["kind"] + (":" + case["src"].get("fmt", case["src"].get("via", "")) if case["src"]["kind"] in ("sup_file", "sup_rows", "result") else "")]
         for st in case.get("chain", []):
@@ -1458,7 +1526,7 @@ class C04(Property):
             if not adiffs:
                 tags.append("A:asis-variant")
                 return {"variant": "asis", "outs": amodel[:12]}
-        known = set(PATCH_SIG.values())
+        known = open_known_sigs()
         if fails and all(f["kind"] == "B" and f["sig"] in known for f in fails):
             tags.append("A:skipped-known-finding")
             return {"variant": "none", "outs": model[:12]}
@@ -1510,6 +1578,8 @@ class C04(Property):
 
     # ---- shrinking
     def shrink(self, case):
+        if "witness" in case:
+            return
         hist = case["hist"]
         chain = case.get("chain", [])
         for k in range(len(hist)):
@@ -1537,6 +1607,8 @@ class C04(Property):
                 yield dict(case, hist=hist[:k] + [dict(h, k=h["k"] // 2)] + hist[k + 1:])
 
     def snippet(self, case):
+        if "witness" in case:
+            return "see Props/C04.lean shuffle_abandon_counterexample"
         return ("import sys, json, tempfile; sys.path[:0] = ['/repo', '/verif/harness']\n"
                 "from props import c04\ncase = json.loads(%r)\nc04.quiet(); tmp = tempfile.mkdtemp()\n"
                 "ref, refp = c04.reference(case, tmp)\nouts, before, after = c04.run_history(case, tmp)\n"
